@@ -30,7 +30,8 @@ class AbiError(Exception):
 
 class Ty:
     """kind: void bool int flt ptr arr rec fn unsupported"""
-    __slots__ = ("kind", "size", "sign", "to", "n", "name", "tag", "params", "ret", "variadic", "why", "const")
+    __slots__ = ("kind", "size", "sign", "to", "n", "name", "tag", "params", "ret", "variadic", "why", "const",
+                 "isref", "unsafe")
 
     def __init__(self, kind, **kw):
         self.kind = kind
@@ -51,7 +52,7 @@ class Ty:
 
 def T_void(): return Ty("void")
 def T_bool(): return Ty("bool")
-def T_int(size, sign): return Ty("int", size=size, sign=sign)
+def T_int(size, sign, name=None): return Ty("int", size=size, sign=sign, name=name)
 def T_flt(size): return Ty("flt", size=size)
 def T_ptr(to): return Ty("ptr", to=to)
 def T_arr(to, n): return Ty("arr", to=to, n=n)
@@ -176,7 +177,7 @@ class CTypes:
         if key not in C_BASE:
             raise AbiError("unknown C base type %r" % " ".join(words))
         b = C_BASE[key]
-        return Ty(b[0]) if len(b) == 1 else (T_int(b[1], b[2]) if b[0] == "int" else T_flt(b[1]))
+        return Ty(b[0]) if len(b) == 1 else (T_int(b[1], b[2], key) if b[0] == "int" else T_flt(b[1]))
 
     def _type_name(self, toks, i):
         const = False
@@ -193,6 +194,8 @@ class CTypes:
                 nm = toks[i + 1]
                 if t == "enum":
                     base = T_unsupported("enum " + nm)
+                elif nm.startswith("__"):
+                    base = T_unsupported("builtin record " + nm)
                 else:
                     base = T_rec(nm, t)
                 i += 2
@@ -301,6 +304,8 @@ def c_render(t, inner=""):
             b = "_Bool"
         elif k == "flt":
             b = {4: "float", 8: "double", 16: "long double"}[t.size]
+        elif t.name:
+            b = t.name
         else:
             b = {(1, "c"): "char", (1, "s"): "signed char", (1, "u"): "unsigned char", (2, "s"): "short",
                  (2, "u"): "unsigned short", (4, "s"): "int", (4, "u"): "unsigned int", (8, "s"): "long",
@@ -392,7 +397,7 @@ def c_decls(repo, cfg_header, workdir, real):
             seen_fn[name] = 1
             d.funs.append((name, params, ret))
             d.meta["spellings"][name] = x["type"]["qualType"]
-            if ret.kind != "unsupported" and not any(p.kind == "unsupported" for p in params):
+            if not has_unsupported(ret) and not any(has_unsupported(p) for p in params):
                 d.meta["fnty"][name] = ft
         elif k == "VarDecl" and name.startswith("a_") and x.get("storageClass") != "static":
             try:
@@ -405,12 +410,21 @@ def c_decls(repo, cfg_header, workdir, real):
 
 # --------------------------------------------------------------------------- Rust side
 
+class _Toks(list):
+    """token list; append((kind, text, line)) records the offset of the token start as 4th item"""
+    pos = 0
+
+    def append(self, t):
+        list.append(self, (t[0], t[1], t[2], self.pos))
+
+
 def rust_tokens(src):
-    """Tokens of a Rust source file: (kind, text, line).  kinds: id num str chr life punct.
+    """Tokens of a Rust source file: (kind, text, line, offset).  kinds: id num str chr life punct.
     Comments (incl. doc comments) are dropped."""
-    toks = []
+    toks = _Toks()
     i, n, line = 0, len(src), 1
     while i < n:
+        toks.pos = i
         c = src[i]
         if c == "\n":
             line += 1
@@ -553,11 +567,13 @@ class RustParser:
         self.vars = []
         self.ffi_used = set()
         self.uses = set()
+        self.modpath = ()
+        self.mod_close = {}     # module path -> offset of its closing brace (root: end of file)
 
     # -- token helpers
     def peek(self, k=0):
         j = self.i + k
-        return self.toks[j] if j < len(self.toks) else ("eof", "", -1)
+        return self.toks[j] if j < len(self.toks) else ("eof", "", -1, -1)
 
     def text(self, k=0):
         return self.peek(k)[1]
@@ -631,14 +647,18 @@ class RustParser:
                 mut = True
             to = self.parse_type()
             r = T_ptr(to if mut else to.with_const())
-            return T_ptr(r.with_const()) if n == 2 else r
+            r.isref = True
+            if n == 2:
+                r = T_ptr(r.with_const())
+                r.isref = True
+            return r
         if t == "[":
             self.eat()
             el = self.parse_type()
             if self.text() != ";":
                 self.err("slice type is not FFI-safe / unsupported")
             self.eat(";")
-            kind, num, ln = self.peek()
+            kind, num, ln = self.peek()[:3]
             if kind != "num":
                 self.err("array length must be a literal")
             self.eat()
@@ -648,6 +668,7 @@ class RustParser:
             self.eat("]")
             return T_arr(el, int(m.group(1).replace("_", ""), 0))
         if t in ("unsafe", "extern", "fn"):
+            is_unsafe = t == "unsafe"
             if t == "unsafe":
                 self.eat()
             if self.text() == "extern":
@@ -677,7 +698,9 @@ class RustParser:
             if self.text() == "->":
                 self.eat()
                 ret = self.parse_type()
-            return T_ptr(T_fn(params, ret, variadic))
+            r = T_ptr(T_fn(params, ret, variadic))
+            r.unsafe = is_unsafe
+            return r
         if t == "(":
             if self.text(1) == ")":
                 self.eat()
@@ -700,7 +723,7 @@ class RustParser:
             return self.aliases[name]
         if name in RUST_PRIMS:
             b = RUST_PRIMS[name]
-            return Ty(b[0]) if len(b) == 1 else (T_int(b[1], b[2]) if b[0] == "int" else T_flt(b[1]))
+            return Ty(b[0]) if len(b) == 1 else (T_int(b[1], b[2], name) if b[0] == "int" else T_flt(b[1]))
         if name in RUST_FFI:
             self.ffi_used.add(name)
             return self.named_type(RUST_FFI[name])
@@ -711,7 +734,7 @@ class RustParser:
     # -- items
     def parse_items(self, until=None):
         while True:
-            k, t, ln = self.peek()
+            k, t, ln = self.peek()[:3]
             if k == "eof":
                 if until:
                     self.err("unexpected end of file")
@@ -719,7 +742,7 @@ class RustParser:
             if t == until:
                 return
             enabled, repr_c, others = self.attrs()
-            k, t, ln = self.peek()
+            k, t, ln = self.peek()[:3]
             if k == "eof" or t == until:
                 return          # trailing inner attributes
             start = self.i
@@ -762,7 +785,7 @@ class RustParser:
                     if self.text() != "{":
                         self.err("repr(C) struct %s: only named-field structs without generics are supported" % name)
                     self.eat("{")
-                    self.structs.append((name, self.parse_fields(), ln))
+                    self.structs.append((name, self.parse_fields(), ln, self.modpath))
                 else:
                     self.other_structs.add(name)
                     self.skip_item_rest()
@@ -783,12 +806,16 @@ class RustParser:
                     self.skip_to_semicolon()
             elif t == "mod":
                 self.eat()
-                self.eat()
+                modname = self.eat()
                 if self.text() == ";":
                     self.err("out-of-line module unsupported")
                 self.eat("{")
                 if enabled:
+                    saved = self.modpath
+                    self.modpath = saved + (modname,)
                     self.parse_items(until="}")
+                    self.mod_close[self.modpath] = self.peek()[3]
+                    self.modpath = saved
                     self.eat("}")
                 else:
                     self.skip_balanced("{", "}")
@@ -896,7 +923,7 @@ class RustParser:
                     ret = self.parse_type()
                 self.eat(";")
                 if enabled:
-                    self.funs.append((name, params, ret, ln))
+                    self.funs.append((name, params, ret, ln, self.modpath))
             elif t == "static":
                 if self.text() == "mut":
                     self.eat()
@@ -905,7 +932,7 @@ class RustParser:
                 ty = self.parse_type()
                 self.eat(";")
                 if enabled:
-                    self.vars.append((name, ty, ln))
+                    self.vars.append((name, ty, ln, self.modpath))
             elif t == "type":
                 self.err("extern type unsupported")
             else:
@@ -949,12 +976,12 @@ def rust_decls(repo, float_feature):
         if not progress:
             raise AbiError("lib.rs: recursive by-value structs: %s" % [s[0] for s in remaining])
     seen = set()
-    for (n, ps, r, ln) in p.funs:
+    for (n, ps, r, ln, mp) in p.funs:
         if n in seen:
             raise AbiError("lib.rs:%d: foreign fn %s declared twice" % (ln, n))
         seen.add(n)
         d.funs.append((n, ps, r))
-    for (n, t, ln) in p.vars:
+    for (n, t, ln, mp) in p.vars:
         d.vars.append((n, t))
     # every named type must be a repr(C) struct of this file
     def check(t, where):
@@ -977,7 +1004,9 @@ def rust_decls(repo, float_feature):
         check(t, "static " + n)
     d.meta = {"ffi_used": sorted(p.ffi_used), "lines": {s[0]: s[2] for s in p.structs},
               "fn_lines": {f[0]: f[3] for f in p.funs}, "var_lines": {v[0]: v[2] for v in p.vars},
-              "uses": p.uses}
+              "uses": p.uses, "src": src, "mod_close": dict(p.mod_close),
+              "struct_mod": {s[0]: s[3] for s in p.structs}, "fn_mod": {f[0]: f[4] for f in p.funs},
+              "var_mod": {v[0]: v[3] for v in p.vars}}
     for n in p.ffi_used:
         if n not in p.uses:
             raise AbiError("lib.rs: %s is used but never imported from core::ffi / std::os::raw" % n)
@@ -1071,6 +1100,416 @@ def parse_eval_output(out):
                 items.append(" ".join(cur.split()))
         mms[m.group(1)] = items
     return dumps, mms
+
+
+# --------------------------------------------------------------------------- compiler probes
+
+def has_unsupported(t):
+    if t.kind == "unsupported":
+        return True
+    if t.kind in ("ptr", "arr"):
+        return has_unsupported(t.to)
+    if t.kind == "fn":
+        return t.variadic or has_unsupported(t.ret) or any(has_unsupported(p) for p in t.params)
+    return False
+
+
+def c_probe(d, extra_defs="", headers=None):
+    """C program printing the layout of every record of d (same canonical lines as dump_decls), the
+    size/signedness of the base types, and statically asserting that every parsed prototype /
+    variable type, re-rendered with all typedefs resolved, is compatible with the real declaration."""
+    hdrs = d.meta.get("headers", []) if headers is None else headers
+    o = ["#include <stdio.h>", "#include <stddef.h>"]
+    o += ['#include "a/%s"' % h for h in hdrs]
+    o.append(extra_defs)
+    o.append("#define FS(T, f) sizeof(((T *)0)->f)")
+    o.append("#define FA(T, f) _Alignof(__typeof__(((T *)0)->f))")
+    for (n, ps, r) in d.funs:
+        ft = d.meta.get("fnty", {}).get(n)
+        if ft is None:
+            continue
+        o.append('_Static_assert(__builtin_types_compatible_p(__typeof__(%s), %s), "resolved prototype of %s");'
+                 % (n, c_render(ft), n))
+    for (n, t) in d.vars:
+        if not has_unsupported(t):
+            o.append('_Static_assert(__builtin_types_compatible_p(__typeof__(%s), %s), "resolved type of %s");'
+                     % (n, c_render(t), n))
+    o.append("int main(void) {")
+    for key, b in C_BASE.items():
+        if key in ("void",):
+            continue
+        if key == "_Bool":
+            o.append('  printf("B %s|%%zu|%%zu|u\\n", sizeof(%s), _Alignof(%s));' % (key, key, key))
+        elif b[0] == "flt":
+            o.append('  printf("B %s|%%zu|%%zu|f\\n", sizeof(%s), _Alignof(%s));' % (key, key, key))
+        else:
+            o.append('  printf("B %s|%%zu|%%zu|%%c\\n", sizeof(%s), _Alignof(%s), ((%s)-1 < (%s)0) ? \'s\' : \'u\');'
+                     % (key, key, key, key, key))
+    o.append('  printf("B void *|%zu|%zu|p\\n", sizeof(void *), _Alignof(void *));')
+    o.append('  printf("B void (*)(void)|%zu|%zu|p\\n", sizeof(void (*)(void)), _Alignof(void (*)(void)));')
+    for (n, u, fs) in d.structs:
+        T = ("union " if u else "struct ") + n
+        o.append('  printf("S %s %s %%zu %%zu %d\\n", sizeof(%s), _Alignof(%s));'
+                 % (n, "union" if u else "struct", len(fs), T, T))
+        for i, (fn, ft) in enumerate(fs):
+            o.append('  printf("F %s %d %s %%zu %%zu %%zu\\n", offsetof(%s, %s), FS(%s, %s), FA(%s, %s));'
+                     % (n, i, fn, T, fn, T, fn, T, fn))
+    o.append("  return 0;\n}")
+    return "\n".join(o) + "\n"
+
+
+def rust_render(t):
+    k = t.kind
+    if k == "void":
+        return "()"
+    if k == "bool":
+        return "bool"
+    if k == "int":
+        return t.name or (("i" if t.sign == "s" else "u") + str(8 * t.size))
+    if k == "flt":
+        return "f%d" % (8 * t.size)
+    if k == "rec":
+        return t.name
+    if k == "arr":
+        return "[%s; %d]" % (rust_render(t.to), t.n)
+    if k == "ptr":
+        if t.to.kind == "fn":
+            f = t.to
+            ret = "" if f.ret.kind == "void" else " -> " + rust_render(f.ret)
+            return "%sextern \"C\" fn(%s)%s" % ("unsafe " if t.unsafe else "",
+                                               ", ".join(rust_render(p) for p in f.params), ret)
+        inner = "core::ffi::c_void" if t.to.kind == "void" else rust_render(t.to)
+        if t.isref:
+            return ("&" if t.to.const else "&mut ") + inner
+        return ("*const " if t.to.const else "*mut ") + inner
+    raise AbiError("cannot render %s for Rust" % k)
+
+
+def rust_probe(d, src=None):
+    """Copy of lib.rs with one child module per module that declares something: prints the layout of
+    every repr(C) struct (size_of/align_of/offset_of!, private fields included) and makes rustc
+    type-check every parsed signature / field type / static type, rendered with aliases resolved,
+    against the real item."""
+    src = d.meta["src"] if src is None else src
+    mods = {}
+    for (n, u, fs) in d.structs:
+        mods.setdefault(d.meta["struct_mod"].get(n, ()), {"s": [], "f": [], "v": []})["s"].append((n, fs))
+    for (n, ps, r) in d.funs:
+        mods.setdefault(d.meta["fn_mod"].get(n, ()), {"s": [], "f": [], "v": []})["f"].append((n, ps, r))
+    for (n, t) in d.vars:
+        mods.setdefault(d.meta["var_mod"].get(n, ()), {"s": [], "f": [], "v": []})["v"].append((n, t))
+    inserts = []
+    calls = []
+    for mp, items in mods.items():
+        o = ["\n#[allow(dead_code, unused, non_snake_case, missing_docs, clippy::all)]",
+             "pub mod __verif_c20 {", "    use super::*;",
+             "    use core::mem::{align_of, offset_of, size_of};",
+             "    fn fsa<S, T>(_f: fn(&S) -> &T) -> (usize, usize) { (size_of::<T>(), align_of::<T>()) }",
+             "    pub fn dump() {"]
+        for (n, fs) in items["s"]:
+            o.append('        println!("S %s struct {} {} %d", size_of::<%s>(), align_of::<%s>());' % (n, len(fs), n, n))
+            for i, (fn, ft) in enumerate(fs):
+                o.append('        { fn g<\'a>(x: &\'a %s) -> &\'a %s { &x.%s } let (s, a) = fsa(g as fn(&%s) -> &%s);'
+                         ' println!("F %s %d %s {} {} {}", offset_of!(%s, %s), s, a); }'
+                         % (n, rust_render(ft), fn, n, rust_render(ft), n, i, fn, n, fn))
+        o.append("    }")
+        o.append("    pub unsafe fn sigs() {")
+        for (n, ps, r) in items["f"]:
+            if any(has_unsupported(p) for p in ps) or has_unsupported(r):
+                continue
+            ret = "" if r.kind == "void" else " -> " + rust_render(r)
+            o.append('        let _: unsafe extern "C" fn(%s)%s = %s;' % (", ".join(rust_render(p) for p in ps), ret, n))
+        for (n, t) in items["v"]:
+            o.append("        let _: *const %s = core::ptr::addr_of!(%s);" % (rust_render(t), n))
+        o.append("    }")
+        o.append("}\n")
+        pos = len(src) if mp == () else d.meta["mod_close"][mp]
+        inserts.append((pos, "\n".join(o)))
+        calls.append("::".join(("crate",) + mp + ("__verif_c20", "dump")) + "();")
+    out = src
+    for pos, text in sorted(inserts, reverse=True):
+        out = out[:pos] + text + out[pos:]
+    prims = ["u8", "i8", "u16", "i16", "u32", "i32", "u64", "i64", "u128", "i128", "usize", "isize", "f32", "f64",
+             "bool", "*const u8", "extern \"C\" fn()"]
+    main = ["\n#[allow(missing_docs)]", "pub fn main() {"]
+    for p in prims:
+        main.append('    println!("B %s|{}|{}", core::mem::size_of::<%s>(), core::mem::align_of::<%s>());'
+                    % (p.replace('"', "'"), p, p))
+    main += ["    " + c for c in calls]
+    main.append("}\n")
+    return out + "\n".join(main)
+
+
+# --------------------------------------------------------------------------- search oracle (no Coq model involved)
+
+RUST_ONLY = ("crc8", "crc16", "crc32", "crc64")     # must equal AbiDefs.rust_only (checked by the check)
+
+
+def py_compat(r, c):
+    """The compatibility relation of DESIGN.md C20, written independently of the Gallina [compat]."""
+    if r.kind == "unsupported" or c.kind == "unsupported":
+        return False
+    if r.kind != c.kind:
+        return False
+    k = r.kind
+    if k in ("void", "bool"):
+        return True
+    if k == "int":
+        return r.size == c.size and (r.sign == c.sign or (c.sign == "c" and r.sign in ("s", "u")))
+    if k == "flt":
+        return r.size == c.size
+    if k == "rec":
+        return "a_" + r.name == c.name
+    if k == "arr":
+        return r.n == c.n and py_compat(r.to, c.to)
+    if k == "ptr":
+        if (r.to.kind == "fn") != (c.to.kind == "fn"):
+            return False
+        if r.to.kind == "fn":
+            f, g = r.to, c.to
+            return (not f.variadic and not g.variadic and len(f.params) == len(g.params)
+                    and all(py_compat(x, y) for x, y in zip(f.params, g.params)) and py_compat(f.ret, g.ret))
+        if r.to.kind == "void" or c.to.kind == "void":
+            return True
+        if py_compat(r.to, c.to):
+            return True
+        return r.to.kind == "arr" and py_compat(r.to.to, c.to)
+    return False
+
+
+def parse_layout_lines(lines):
+    """canonical S/F lines -> {name: {"kind","size","align","n","fields":[(fname, off, size, align)]}}"""
+    res = {}
+    for ln in lines:
+        w = ln.split()
+        if not w:
+            continue
+        if w[0] == "S":
+            res[w[1]] = {"kind": w[2], "size": int(w[3]), "align": int(w[4]), "n": int(w[5]), "fields": []}
+        elif w[0] == "F":
+            res[w[1]]["fields"].append((w[3], int(w[4]), int(w[5]), int(w[6])))
+    return res
+
+
+def ty_str(t):
+    return coq_ty(t)
+
+
+def py_mismatches(rd, cd, rust_lines, c_lines):
+    """The property itself, evaluated on what the COMPILERS report for the current sources (layouts)
+    and on the parsed declarations (signatures).  Returns [(key, what, detail-dict)]."""
+    out = []
+    rl, cl = parse_layout_lines(rust_lines), parse_layout_lines(c_lines)
+    cstructs = {n: fs for (n, u, fs) in cd.structs}
+    for (n, u, fs) in rd.structs:
+        cn = "a_" + n
+        if n not in rl:
+            out.append(("struct/%s/rustc" % n, "rustc reported no layout for %s" % n, {}))
+            continue
+        if cn not in cstructs or cn not in cl:
+            if n not in RUST_ONLY:
+                out.append(("struct/%s/no-mirror" % n, "repr(C) struct %s has no C record %s and is not a known "
+                            "Rust-only type" % (n, cn), {"struct": n}))
+            continue
+        a, b = rl[n], cl[cn]
+        for what in ("kind", "size", "align", "n"):
+            if a[what] != b[what]:
+                out.append(("struct/%s/%s" % (n, what), "%s: %s %s in Rust, %s in C (%s)" % (n, what, a[what], b[what], cn),
+                            {"struct": n, "rust": a[what], "c": b[what]}))
+        cfs = cstructs[cn]
+        for i, ((fn, ft), fa) in enumerate(zip(fs, a["fields"])):
+            if i >= len(cfs) or i >= len(b["fields"]):
+                break
+            cfn, cft = cfs[i]
+            fb = b["fields"][i]
+            if not (fn == cfn or fn + "_" == cfn):
+                out.append(("struct/%s/field/%d/name" % (n, i), "%s field %d is `%s` in Rust but `%s` in C" % (n, i, fn, cfn),
+                            {"struct": n, "index": i, "rust": fn, "c": cfn}))
+            for j, what in ((1, "offset"), (2, "size"), (3, "align")):
+                if fa[j] != fb[j]:
+                    out.append(("struct/%s/field/%d/%s" % (n, i, what),
+                                "%s.%s: %s %d (rustc) vs %d (C compiler, %s.%s)" % (n, fn, what, fa[j], fb[j], cn, cfn),
+                                {"struct": n, "index": i, "field": fn, "rust": fa[j], "c": fb[j]}))
+            if not py_compat(ft, cft):
+                out.append(("struct/%s/field/%d/type" % (n, i), "%s.%s: type %s in Rust vs %s in C" % (n, fn, ty_str(ft), ty_str(cft)),
+                            {"struct": n, "index": i, "field": fn, "rust": ty_str(ft), "c": ty_str(cft)}))
+    cfun = {n: (ps, r) for (n, ps, r) in cd.funs}
+    for (n, ps, r) in rd.funs:
+        if n not in cfun:
+            out.append(("fn/%s/missing" % n, "foreign fn %s is not declared by the headers" % n, {"fn": n}))
+            continue
+        cps, cr = cfun[n]
+        if len(ps) != len(cps):
+            out.append(("fn/%s/arity" % n, "%s: %d parameters in Rust, %d in C" % (n, len(ps), len(cps)),
+                        {"fn": n, "rust": len(ps), "c": len(cps)}))
+        for i, (x, y) in enumerate(zip(ps, cps)):
+            if not py_compat(x, y):
+                out.append(("fn/%s/param/%d" % (n, i), "%s parameter %d: %s in Rust vs %s in C" % (n, i, ty_str(x), ty_str(y)),
+                            {"fn": n, "index": i, "rust": ty_str(x), "c": ty_str(y)}))
+        if not py_compat(r, cr):
+            out.append(("fn/%s/ret" % n, "%s result: %s in Rust vs %s in C" % (n, ty_str(r), ty_str(cr)),
+                        {"fn": n, "rust": ty_str(r), "c": ty_str(cr)}))
+    cvar = dict(cd.vars)
+    for (n, t) in rd.vars:
+        if n not in cvar:
+            out.append(("static/%s/missing" % n, "foreign static %s is not declared by the headers" % n, {"static": n}))
+        elif not py_compat(t, cvar[n]):
+            out.append(("static/%s/type" % n, "static %s: %s in Rust vs %s in C" % (n, ty_str(t), ty_str(cvar[n])),
+                        {"static": n, "rust": ty_str(t), "c": ty_str(cvar[n])}))
+    return out
+
+
+MM_KEY = {
+    "MM_no_mirror": "struct/%s/no-mirror", "MM_kind": "struct/%s/kind", "MM_size": "struct/%s/size",
+    "MM_align": "struct/%s/align", "MM_nfields": "struct/%s/n",
+    "MM_field_name": "struct/%s/field/%s/name", "MM_field_off": "struct/%s/field/%s/offset",
+    "MM_field_size": "struct/%s/field/%s/size", "MM_field_align": "struct/%s/field/%s/align",
+    "MM_field_ty": "struct/%s/field/%s/type",
+    "MM_fn_missing": "fn/%s/missing", "MM_arity": "fn/%s/arity", "MM_param": "fn/%s/param/%s", "MM_ret": "fn/%s/ret",
+    "MM_var_missing": "static/%s/missing", "MM_var_ty": "static/%s/type",
+}
+
+
+def mm_key(term):
+    """key (same scheme as py_mismatches) of a mismatch term printed by Coq"""
+    m = re.match(r'(\w+)(?:\s+"((?:[^"]|"")*)")?(?:\s+(\d+))?', term)
+    if not m:
+        return "model/" + term
+    c, name, idx = m.group(1), m.group(2), m.group(3)
+    fmt = MM_KEY.get(c)
+    if fmt is None:
+        return "model/" + c
+    n = fmt.count("%s")
+    return fmt % ((name, idx)[:n])
+
+
+# --------------------------------------------------------------------------- synthetic declarations
+
+SYN_SCALARS = [
+    # (rust, c)
+    ("u8", "unsigned char"), ("i8", "signed char"), ("u8", "char"), ("u16", "unsigned short"), ("i16", "short"),
+    ("u32", "unsigned int"), ("i32", "int"), ("u64", "unsigned long"), ("i64", "long"), ("usize", "unsigned long"),
+    ("i64", "long long"), ("f32", "float"), ("f64", "double"), ("bool", "_Bool"),
+    ("*const f64", "const double *"), ("*mut u8", "void *"), ("*mut u32", "unsigned int *"),
+    ('extern "C" fn(f64, f64) -> f64', "double (*%s)(double, double)"),
+    ('unsafe extern "C" fn(*const u16, usize) -> u16', "unsigned short (*%s)(const unsigned short *, unsigned long)"),
+    ("u128", "unsigned __int128"),
+]
+SYN_WEIGHTS = [4, 2, 3, 3, 2, 4, 3, 3, 2, 3, 1, 4, 5, 3, 3, 2, 2, 2, 1, 1]
+
+
+def synth_sources(rng, n):
+    """n random repr(C) structs (Rust) and their C counterparts; ~40% of the C ones are perturbed
+    (field inserted / removed / retyped / swapped / array length / signedness / renamed), plus a few
+    C-only unions.  Returns (lib_rs_text, header_text, [perturbation notes])."""
+    rs = ["#![allow(non_camel_case_types, dead_code)]", "// synthetic declarations (checks/C20.py)"]
+    hs = ["#ifndef SYNTH_H", "#define SYNTH_H"]
+    notes = []
+    made = []      # names of structs usable by value (unperturbed only, so that nesting stays comparable)
+
+    def field_type(depth=0):
+        r = rng.random()
+        if made and r < 0.12 and depth == 0:
+            k = rng.choice(made)
+            return ("s%d" % k, "struct a_s%d %%s" % k)
+        if made and r < 0.18:
+            k = rng.choice(made)
+            return ("*mut s%d" % k, "struct a_s%d *%%s" % k)
+        if r < 0.34 and depth == 0:
+            el_r, el_c = field_type(1)
+            ln = rng.choice([1, 2, 3, 3, 4, 5, 7, 8, 9, 16])
+            if "(*%s)" in el_c:
+                return ("[%s; %d]" % (el_r, ln), el_c.replace("(*%s)", "(*%%s[%d])" % ln))
+            return ("[%s; %d]" % (el_r, ln), el_c + "[%d]" % ln)
+        a, b = rng.choices(SYN_SCALARS, SYN_WEIGHTS)[0]
+        return (a, b if "%s" in b else b + " %s")
+
+    for k in range(n):
+        nf = rng.choice([1, 2, 2, 3, 3, 4, 5, 6, 8])
+        fields = [("f%d" % i,) + field_type() for i in range(nf)]
+        cfields = list(fields)
+        note = None
+        if rng.random() < 0.4:
+            kind = rng.choice(["insert", "remove", "retype", "swap", "arrlen", "sign", "rename", "retype"])
+            i = rng.randrange(len(cfields))
+            if kind == "insert":
+                a, b = rng.choices(SYN_SCALARS, SYN_WEIGHTS)[0]
+                cfields.insert(i, ("extra", a, b if "%s" in b else b + " %s"))
+            elif kind == "remove" and len(cfields) > 1:
+                del cfields[i]
+            elif kind == "retype":
+                a, b = rng.choices(SYN_SCALARS, SYN_WEIGHTS)[0]
+                cfields[i] = (cfields[i][0], a, b if "%s" in b else b + " %s")
+            elif kind == "swap" and len(cfields) > 1:
+                j = (i + 1) % len(cfields)
+                cfields[i], cfields[j] = cfields[j], cfields[i]
+            elif kind == "arrlen":
+                f = cfields[i]
+                m = re.search(r"\[(\d+)\]", f[2])
+                if m:
+                    cfields[i] = (f[0], f[1], f[2].replace("[%s]" % m.group(1), "[%d]" % (int(m.group(1)) + rng.choice([1, 1, 2]))))
+                else:
+                    kind = None
+            elif kind == "sign":
+                f = cfields[i]
+                if f[2].startswith("unsigned int") or f[2].startswith("unsigned long") or f[2].startswith("unsigned short"):
+                    cfields[i] = (f[0], f[1], f[2][len("unsigned "):])
+                elif f[2].startswith(("int ", "long ", "short ")):
+                    cfields[i] = (f[0], f[1], "unsigned " + f[2])
+                else:
+                    kind = None
+            elif kind == "rename":
+                f = cfields[i]
+                cfields[i] = (rng.choice([f[0] + "_", f[0] + "x"]), f[1], f[2])
+            else:
+                kind = None
+            if kind:
+                note = "s%d: %s at %d" % (k, kind, i)
+        rs.append("#[repr(C)]\npub struct s%d {" % k)
+        for (fn, rt, ct) in fields:
+            rs.append("    %s%s: %s," % (rng.choice(["pub ", "", "pub "]), fn, rt))
+        rs.append("}")
+        hs.append("struct a_s%d {" % k)
+        for (fn, rt, ct) in cfields:
+            hs.append("    %s;" % (ct % fn))
+        hs.append("};")
+        if note:
+            notes.append(note)
+        else:
+            made.append(k)
+        if rng.random() < 0.12:
+            hs.append("union a_u%d {" % k)
+            for i in range(rng.choice([1, 2, 3, 4])):
+                a, b = rng.choices(SYN_SCALARS, SYN_WEIGHTS)[0]
+                b = b if "%s" in b else b + " %s"
+                if rng.random() < 0.3:
+                    b = b + "[%d]" % rng.choice([2, 3, 5]) if "(*%s)" not in b else b
+                hs.append("    %s;" % (b % ("m%d" % i)))
+            hs.append("};")
+    # a few foreign functions over the synthetic types, some perturbed
+    rs.append('extern "C" {')
+    for k in range(max(2, n // 3)):
+        np_ = rng.randrange(0, 5)
+        ps = [rng.choices(SYN_SCALARS[:17], SYN_WEIGHTS[:17])[0] for _ in range(np_)]
+        ret = rng.choice([None] + [x for x in SYN_SCALARS[:15]])
+        cps = list(ps)
+        cret = ret
+        if rng.random() < 0.35:
+            kind = rng.choice(["ret", "param", "arity"])
+            if kind == "ret":
+                cret = rng.choice([None] + [x for x in SYN_SCALARS[:15]])
+            elif kind == "param" and cps:
+                cps[rng.randrange(len(cps))] = rng.choices(SYN_SCALARS[:17], SYN_WEIGHTS[:17])[0]
+            else:
+                cps.append(rng.choice(SYN_SCALARS[:15]))
+            notes.append("a_fn%d: %s" % (k, kind))
+        rs.append("    fn a_fn%d(%s)%s;" % (k, ", ".join("p%d: %s" % (i, p[0]) for i, p in enumerate(ps)),
+                                            "" if ret is None else " -> " + ret[0]))
+        hs.append("extern %s a_fn%d(%s);" % ("void" if cret is None else cret[1],
+                                             k, ", ".join((p[1] if "%s" not in p[1] else p[1] % "") for p in cps) or "void"))
+    rs.append("}")
+    hs.append("#endif")
+    return "\n".join(rs) + "\n", "\n".join(hs) + "\n", notes
 
 
 if __name__ == "__main__":
